@@ -1,2 +1,214 @@
-use {common::*, std::path::Path};
-pub fn case(_args: &Args, _rng: &mut Rng, _out: &mut Streams, _dist: &mut Dist, _scratch: &Path, _case: u64) {}
+//! C13: the indexing process dies at a named point (`ord::verif::points`, armed to panic at the
+//! k-th hit; the index is then dropped and reopened).  After reopening, the content must be that
+//! of some fully committed height of the chain; after continuing, it must equal the content of
+//! an uninterrupted run.
+use {
+  crate::{content_of, digest, first_diff, gen_chain},
+  bitcoin::Block,
+  common::*,
+  ixlib::{
+    Flags, Node, UpdateOutcome,
+    env::{self},
+  },
+  ord::verif::points,
+  std::{collections::HashMap, path::Path, time::Duration},
+};
+
+pub const POINTS: [&str; 14] = [
+  "update:block-indexed",
+  "block:mid",
+  "commit:start",
+  "commit:pre-durable",
+  "commit:post-durable",
+  "commit:post-empty",
+  "commit:done",
+  "savepoint:deleted-uncommitted",
+  "savepoint:post-delete-commit",
+  "savepoint:created-uncommitted",
+  "savepoint:post-create-commit",
+  "reorg:pre-restore",
+  "reorg:pre-commit",
+  "reorg:post-commit",
+];
+
+fn node_with(chain: &'static str, scratch: &Path, blocks: &[Block]) -> Node {
+  let node = Node::new(chain, scratch);
+  for b in blocks {
+    node.push_block(b.clone());
+  }
+  node
+}
+
+/// content of a from-scratch index over genesis + `blocks`
+fn scratch_content(chain: &'static str, scratch: &Path, flags: Flags, blocks: &[Block]) -> Result<Vec<String>, String> {
+  let node = node_with(chain, scratch, blocks);
+  let ix = env::open(&node, scratch, flags, &[], false);
+  crate::must_update(&ix)?;
+  Ok(content_of(&ix))
+}
+
+pub fn case(args: &Args, rng: &mut Rng, out: &mut Streams, dist: &mut Dist, scratch: &Path, case: u64) {
+  let chain = "regtest";
+  let flags = if rng.chance(2, 3) { Flags::all() } else { crate::pick_flags(rng) };
+  let maxb = args.get("blocks").map(|v| v.parse().unwrap()).unwrap_or(7u64);
+  let nblocks = 4 + rng.below(maxb);
+  let blocks = gen_chain(rng, chain, scratch, nblocks, 0, dist);
+  let n = blocks.len();
+  let s = *rng.pick(&[2u64, 3, 10]);
+  let m = *rng.pick(&[2u64, 3]);
+  let ci = 1 + rng.below(4);
+  let extra = vec![
+    "--savepoint-interval".to_string(),
+    s.to_string(),
+    "--max-savepoints".to_string(),
+    m.to_string(),
+    "--commit-interval".to_string(),
+    ci.to_string(),
+  ];
+  // optional reorg half-way: the first update sees `first` blocks, then the last `depth` are
+  // replaced by a longer branch; the crash may hit either update
+  let with_reorg = rng.chance(1, 2) && n >= 5;
+  let first = if with_reorg { n - 1 - rng.below(2) as usize } else { n };
+  let depth = if with_reorg { 1 + rng.below((first as u64 - 1).min(3)) as usize } else { 0 };
+  let branch: Vec<Block> = if with_reorg {
+    // a branch of depth+1 simple blocks on top of first-depth
+    let node = node_with(chain, scratch, &blocks[..first - depth]);
+    let mut g = ixlib::chaingen::Gen::new(rng.fork(), node.core.state().network);
+    g.max_txs = 0;
+    let mut v = Vec::new();
+    for _ in 0..(depth + 1) {
+      let b = g.block(&node, dist);
+      node.push_block(b.clone());
+      v.push(b);
+    }
+    v
+  } else {
+    Vec::new()
+  };
+  let final_blocks: Vec<Block> = if with_reorg {
+    blocks[..first - depth].iter().cloned().chain(branch.iter().cloned()).collect()
+  } else {
+    blocks.clone()
+  };
+  // the run: update after `first` blocks, then (reorg and) update again
+  let run = |armed: Option<(&str, u64)>| -> (Result<(), String>, Node, env::Ix, bool) {
+    let node = node_with(chain, scratch, &blocks[..first]);
+    let ix = env::open(&node, scratch, flags, &extra, false);
+    points::reset(false);
+    if let Some((p, k)) = armed {
+      points::arm(p, k);
+    }
+    let mut fired = false;
+    let mut res = Ok(());
+    let classify = |o: UpdateOutcome, fired: &mut bool| -> Result<(), String> {
+      match o {
+        UpdateOutcome::Ok => Ok(()),
+        UpdateOutcome::Panic(p) if p.starts_with("verif crash point") => {
+          *fired = true;
+          Err("crashed".into())
+        }
+        UpdateOutcome::Panic(p) => Err(format!("panic:{p}")),
+        UpdateOutcome::Err(e) => Err(format!("err:{e}")),
+        UpdateOutcome::Hang => Err("hang".into()),
+      }
+    };
+    res = res.and_then(|_| classify(env::update(&ix, Duration::from_secs(60)), &mut fired));
+    if res.is_ok() && with_reorg {
+      node.pop_blocks(depth);
+      for b in &branch {
+        node.push_block(b.clone());
+      }
+      res = classify(env::update(&ix, Duration::from_secs(60)), &mut fired);
+    }
+    points::reset(false);
+    (res, node, ix, fired)
+  };
+  // uninterrupted reference
+  let (r0, _node0, ix0, _) = run(None);
+  let desc0 = format!("case={case} n={n} s={s} m={m} ci={ci} reorg={}", if with_reorg { format!("{depth}@{first}") } else { "-".into() });
+  let reference = match r0 {
+    Ok(()) => content_of(&ix0),
+    Err(e) if e.contains("unrecoverable") => {
+      dist.hit("crash_case_unrecoverable_reorg");
+      return; // C14's business
+    }
+    Err(e) => {
+      out.emit(&format!("store.oracle.true 0 {desc0} class=reference-failed:{}", e.replace(' ', "_")), "true");
+      return;
+    }
+  };
+  drop(ix0);
+  // contents at every committed height of either branch, computed on demand
+  let mut prefix_cache: HashMap<(bool, usize), String> = HashMap::new();
+  let mut prefix_digest = |on_final: bool, h: usize| -> String {
+    prefix_cache
+      .entry((on_final, h))
+      .or_insert_with(|| {
+        let src = if on_final { &final_blocks } else { &blocks };
+        match scratch_content(chain, scratch, flags, &src[..h]) {
+          Ok(c) => digest(&c),
+          Err(e) => format!("failed:{e}"),
+        }
+      })
+      .clone()
+  };
+  // a crash before the first commit leaves the freshly created (empty) index
+  let fresh_digest = {
+    let node = node_with(chain, scratch, &[]);
+    let ix = env::open(&node, scratch, flags, &extra, false);
+    digest(&content_of(&ix))
+  };
+  let kmax = args.get("occurrences").map(|v| v.parse().unwrap()).unwrap_or(3u64);
+  for p in POINTS {
+    for k in 1..=kmax {
+      let (res, node, ix, fired) = run(Some((p, k)));
+      if !fired {
+        // the point is hit fewer than k times in this history
+        drop(ix);
+        let _ = res;
+        break;
+      }
+      dist.hit(&format!("crash_at_{p}"));
+      let desc = format!("{desc0} point={p} occurrence={k}");
+      // the process died: drop everything and reopen
+      let ix = env::reopen(&node, ix, flags, &extra);
+      let rows = content_of(&ix);
+      let height = rows.iter().filter(|r| r.starts_with("header ")).count(); // blocks incl. genesis
+      let d = digest(&rows);
+      // some fully committed height of a chain the index was following
+      let h = height.saturating_sub(1);
+      let ok = (height == 0 && d == fresh_digest) || (height > 0 && h <= blocks.len() && prefix_digest(false, h) == d) || (height > 0 && h <= final_blocks.len() && prefix_digest(true, h) == d);
+      out.emit(&format!("store.oracle.true {} {desc} class=after-reopen height={height}", ok as u8), "true");
+      // continue: the node is wherever the history left it; bring it to the final chain
+      {
+        let tip = node.height() as usize;
+        let on_final = tip >= final_blocks.len() && node.block_at(tip as u32).block_hash() == final_blocks.last().unwrap().block_hash();
+        if !on_final {
+          if with_reorg && tip == first {
+            node.pop_blocks(depth);
+            for b in &branch {
+              node.push_block(b.clone());
+            }
+          }
+        }
+      }
+      match crate::must_update(&ix) {
+        Ok(()) => {
+          let c = content_of(&ix);
+          out.emit(
+            &format!("store.oracle.same {} {} {desc} class=after-resume diff={}", digest(&reference), digest(&c), first_diff(&reference, &c)),
+            "true",
+          );
+        }
+        Err(e) if e.contains("unrecoverable") => {
+          // a crash can leave fewer savepoints than the uninterrupted run had; an honest
+          // "unrecoverable" is C14's allowed outcome, not a consistency failure
+          dist.hit("crash_resume_unrecoverable");
+          out.emit(&format!("store.oracle.true 1 {desc} class=after-resume-unrecoverable"), "true");
+        }
+        Err(e) => out.emit(&format!("store.oracle.true 0 {desc} class=resume-failed:{}", e.replace(' ', "_")), "true"),
+      }
+    }
+  }
+  dist.hit("chain");
+}
